@@ -51,6 +51,16 @@ def gen_events(chk: Check, rnd):
     from demeter.uniswap.liquitidy_math import get_sqrt_ratio_at_tick
     quick = chk.tier == "quick"
     chunks = []
+
+    def call(fn, *args):
+        """a helper that raises on an argument of its domain violates its clause; the event is skipped"""
+        try:
+            return fn(*args)
+        except Exception as e:
+            name = getattr(fn, "__name__", str(fn))
+            chk.violation(f"{name}|raises|{'neg' if isinstance(args[0], int) and args[0] < 0 else 'nonneg'}",
+                          f"{name}{args} raised {type(e).__name__}: {e}", {"kind": "call", "fn": name, "args": [str(a) for a in args]})
+            return None
     # 1. tick -> sqrt price, every tick
     step = 120000
     for a in range(MIN_TICK, MAX_TICK + 1, step):
@@ -85,12 +95,16 @@ def gen_events(chk: Check, rnd):
                 for t in rnd.sample(ts, 250 if quick else 2500) + [MIN_TICK + 1, MAX_TICK - 1, 0, -1, 1]:
                     if abs(t) > 800000:
                         continue   # prices beyond 1e34 / below 1e-34 leave the 35-digit Decimal context of the helpers
-                    price = helper.tick_to_base_unit_price(t, d0, d1, zq)
-                    back = helper.base_unit_price_to_tick(price, d0, d1, zq)
+                    price = call(helper.tick_to_base_unit_price, t, d0, d1, zq)
+                    back = None if price is None else call(helper.base_unit_price_to_tick, price, d0, d1, zq)
+                    if back is None:
+                        continue
                     ev.append({"k": "pt", "t": t, "d0": d0, "d1": d1, "zq": zq, "price": qj(frac(price)), "back": int(back)})
     for sp in (1, 10, 60, 200):
         for t in rnd.sample(ts, 400 if quick else 3000) + [MIN_TICK, MAX_TICK, MIN_TICK + 3, MAX_TICK - 3, 5, -5, 15, -15, 30, -30, 100, -100]:
-            ev.append({"k": "n", "t": t, "sp": sp, "r": int(helper.nearest_usable_tick(t, sp))})
+            r = call(helper.nearest_usable_tick, t, sp)
+            if r is not None:
+                ev.append({"k": "n", "t": t, "sp": sp, "r": int(r)})
     chunks.append(ev)
     # 6. the market-level helpers (both orientations)
     from demeter import MarketInfo
@@ -101,12 +115,15 @@ def gen_events(chk: Check, rnd):
         m = UniLpMarket(MarketInfo("u"), pool)
         zq = pool.is_token0_quote
         for t in rnd.sample([x for x in ts if abs(x) < 700000], 300 if quick else 3000):
-            price = m.tick_to_price(t)
-            back = helper.base_unit_price_to_tick(price, pool.token0.decimal, pool.token1.decimal, zq)
+            price = call(m.tick_to_price, t)
+            back = None if price is None else call(helper.base_unit_price_to_tick, price, pool.token0.decimal, pool.token1.decimal, zq)
+            if back is None:
+                continue
             ev.append({"k": "pt", "t": t, "d0": pool.token0.decimal, "d1": pool.token1.decimal, "zq": zq,
                        "price": qj(frac(price)), "back": int(back)})
-            usable = m.price_to_tick(price)
-            ev.append({"k": "n", "t": int(back), "sp": pool.tick_spacing, "r": int(usable)})
+            usable = call(m.price_to_tick, price)
+            if usable is not None:
+                ev.append({"k": "n", "t": int(back), "sp": pool.tick_spacing, "r": int(usable)})
     chunks.append(ev)
     return chunks
 
